@@ -220,7 +220,10 @@ def loadback_case(args):
         o2 = _run_main(tap2sna.main, sim_args + [tapef, z80f])
         if not os.path.exists(z80f) or 'EXC' in o2 or 'EXIT' in o2:
             return ('tap2sna', desc, o2[-200:].replace('\n', '|'))
-        s = Snapshot.get(z80f)
+        try:
+            s = Snapshot.get(z80f)
+        except Exception as ex:      # the snapshot tap2sna wrote must be readable
+            return ('loadback', desc, ['the snapshot written by tap2sna cannot be read back: %r' % (ex,)])
         mem = [0] * 16384 + list(s.ram())
         why = []
         if s.pc != start:
